@@ -98,6 +98,17 @@ Theorem C04_codec_res : forall b d f, dep_wf d ->
 Proof. exact decode_ini_dep. Qed.
 Print Assumptions C04_codec_res.
 
+(* --- activating the same Initiator / Target objects again (a fresh link after any earlier conversation): the
+       conversation is the one fresh objects would have, so all theorems above hold for every activation of a history --- *)
+Theorem C04_reactivation_fresh : forall p_old t_old n fuel ic tc script payloads app timeout release,
+  conversation_after p_old t_old n fuel ic tc script payloads app timeout release =
+  conversation n fuel ic tc script payloads app timeout release.
+Proof. exact reactivation_fresh. Qed.
+Print Assumptions C04_reactivation_fresh.
+Theorem C04_activate_state : forall p_old t_old app, ini_activate p_old = 0 /\ tgt_activate t_old app = tgt_init app.
+Proof. exact activate_state. Qed.
+Print Assumptions C04_activate_state.
+
 (* --- tie: the kernels regenerated from src/nfc/dep.py on this run (Gen/DepK.v) are what Model/Dep.v is built from --- *)
 Theorem C04_bridge_fmt_consts : gen_LastInformation = F_INF /\ gen_MoreInformation = F_MORE /\ gen_PositiveAck = F_ACK /\
   gen_NegativeAck = F_NAK /\ gen_Attention = F_ATN /\ gen_TimeoutExtension = F_RTOX.
@@ -199,6 +210,11 @@ Theorem C04_bridge_code : forall b f c0 c1 r, strip_frame b f = Ok (c0 :: c1 :: 
   (gen_t_code_bad c0 c1 = true -> decode_frame_tgt b f = Err ProtocolError).
 Proof. intros. split; [eapply bridge_code_i | eapply bridge_code_t]; eassumption. Qed.
 Print Assumptions C04_bridge_code.
+
+Theorem C04_bridge_activate : forall p_old t_old app,
+  ini_activate p_old = gen_i_activate_pni /\ t_pni (tgt_activate t_old app) = gen_t_activate_pni.
+Proof. exact bridge_activate. Qed.
+Print Assumptions C04_bridge_activate.
 
 (* non-vacuity: a conversation of five exchanges (beyond the PNI wrap) with chaining in both directions,
    DID and NAD, a lost request, a corrupted information response and a lost response is completed exactly;
